@@ -18,12 +18,17 @@ fn main() {
         _ => Tier::Quick,
     };
     let mut replay = None;
+    let mut shard = None;
     let mut i = 2;
     while i < args.len() {
         match args[i].as_str() {
             "--tier" => {
                 tier = if args.get(i + 1).map(|s| s.as_str()) == Some("thorough") { Tier::Thorough } else { Tier::Quick };
                 i += 1;
+            }
+            "--shard" => {
+                shard = Some((args[i + 1].clone(), args[i + 2].parse().unwrap(), args[i + 3].parse().unwrap()));
+                i += 3;
             }
             "--replay" => {
                 replay = args.get(i + 1).cloned();
@@ -33,6 +38,11 @@ fn main() {
         }
         i += 1;
     }
-    let code = vh::checks::run(&id, tier, replay);
+    if std::env::var("VH_VERBOSE_PANIC").is_err() {
+        // panics inside properties are caught (proptest / catch_unwind) and reported as failures;
+        // keep stderr quiet and cheap (no backtrace formatting per generated case)
+        std::panic::set_hook(Box::new(|_| {}));
+    }
+    let code = vh::checks::run(&id, tier, replay, shard);
     std::process::exit(code);
 }
